@@ -32,34 +32,31 @@ def run(chk):
     from rules.hourlyframe import check_contiguous_index
     check_contiguous_index(chk, r5)
 
-    sd = chk.repo.func(HOURLY_DATA, "_HourlyData._set_data")
-    cfg = CFG(sd.node)
-    rd = ReachingDefs(sd.node, cfg)
-    og = Origins(sd.node, rd, fresh_calls={"remove_duplicates", "self._get_contiguous_datetime", "self._interpolate", "self._add_pv_start_date"})
-    data_param = [p for p in sd.params if p != "self"][0]
-    for st, recv, kind in inplace_stores(sd.node):
-        if unparse(recv).startswith("self"):
-            continue
-        o = og.of(recv, st)
-        bad = [t for t in o if isinstance(t, tuple) and t[0] in ("PARAM", "VIEW")]
-        r1.require(not bad, f"{sd.key}|store:{unparse(recv)}|{kind}", sd.where(st), f"_set_data: `{unparse(st)[:70]}` writes into the caller's frame ({sorted(map(str, bad))})")
-    first = [s for s in sd.node.body if not (isinstance(s, ast.Expr) and isinstance(s.value, ast.Constant))][0]
-    r1.require(isinstance(first, ast.Assign) and unparse(first.value) == f"{data_param}.copy()", f"{sd.key}|copy-first", sd.where(first), "_set_data must start by copying its input")
-    z = [s for s in cfg.stmts() if isinstance(s, ast.Assign) and isinstance(s.targets[0], ast.Subscript) and isinstance(s.value, (ast.Attribute, ast.Call, ast.Constant)) and unparse(s.value) in ("np.nan", "float('nan')") and "observed" in unparse(s.targets[0])]
-    ok = False
-    if len(z) == 1:
-        t = z[0].targets[0]
-        sel = t.slice.elts if isinstance(t.slice, ast.Tuple) else []
-        g = cfg.guards(z[0])
-        ok = len(sel) == 2 and unparse(sel[0]) in ("df['observed'] == 0", "df.observed == 0") and const_str(sel[1]) == "observed" and isinstance(t.value, ast.Attribute) and t.value.attr == "loc" \
-            and any(pol and unparse(tt) == "self.is_electricity_data" for tt, pol in g)
-    r1.require(ok, f"{sd.key}|zero-to-nan", sd.where(z[0]) if z else sd.where(),
-               "zero usage must become missing only when is_electricity_data, selected by observed == 0, written to the observed column only", sample={"store": unparse(z[0])[:80] if z else None})
-    others = [s for s in cfg.stmts() if isinstance(s, ast.Assign) and isinstance(s.targets[0], ast.Subscript) and isinstance(s.targets[0].value, ast.Attribute) and s.targets[0].value.attr == "loc" and s not in z]
-    r1.require(not others, f"{sd.key}|no-other-value-stores", sd.where(), f"_set_data has additional .loc value stores: {[unparse(s)[:50] for s in others]}")
+    # _set_data interpreted on recording values (rules/hourlyframe.py): the returned pipeline term and every in-place store
+    from rules.hourlyframe import judge_set_data, set_data_outcomes
+    sd, sd_outs = set_data_outcomes(chk)
+    seen = set()
+    for o in sd_outs:
+        for ob, msg in judge_set_data(o):
+            key = {"zero": f"{sd.key}|zero-to-nan", "copy": f"{sd.key}|copy-first", "order": f"{sd.key}|order"}[ob]
+            if (key, msg[:70]) in seen:
+                continue
+            seen.add((key, msg[:70]))
+            r1.require(False, key, sd.where(), f"_set_data: {msg}", sample={"electric": o["electric"]})
+    for nm in ("zero-to-nan", "copy-first", "no-other-value-stores", f"paths={len(sd_outs)}"):
+        r1.inst(f"{sd.key}|{nm}")
+    # remove_duplicates keeps the first of each duplicated timestamp (interpreted on a recording frame)
+    from engine.absint import ModuleEnv, SymWorld, canon, sym_root
+    from engine.pyinterp import Function, Interp, Unsupported
     rdup = chk.repo.func(DPU, "remove_duplicates")
-    t = unparse(rdup.node)
-    r1.require(".index.duplicated(keep='first')" in t and "[~" in t, f"{rdup.key}|keep-first", rdup.where(), "remove_duplicates must keep the first of each duplicated timestamp (~index.duplicated(keep='first'))")
+    try:
+        w_ = SymWorld()
+        it_ = Interp(step_limit=10_000)
+        got = canon(Function(rdup.node, ModuleEnv(chk.repo, rdup.module, it_, {"pd": sym_root(w_, "pd")}), it_)(sym_root(w_, "x")))
+    except Unsupported as e:
+        raise AnalysisError(f"{rdup.key}: uses an operation outside the modelled subset: {e}")
+    r1.require(got in ("x[invert(x.index.duplicated(keep='first'))]", "x.loc[invert(x.index.duplicated(keep='first'))]", "x[invert(x.index.duplicated())]", "x.loc[invert(x.index.duplicated())]"),
+               f"{rdup.key}|keep-first", rdup.where(), f"remove_duplicates must keep the first *row* of each duplicated timestamp (x[~x.index.duplicated(keep='first')]); it computes `{got[:120]}`")
 
     # ------------------------------------------------------------------ R17.2 / R17.3: interpolate() is interpreted symbolically
     # (rules/interp_absint.py): what is finally stored in the column, and on which mask the flag is set, over every
